@@ -49,7 +49,10 @@ pub fn parse_rsca(path: &Path) -> io::Result<Vec<RuleGroup>> {
         r = RuleGroup::new();
         r.rule.push(line.to_string());
     }
-    rules.push(r);
+    // (a blank line after the last description has already closed the last group)
+    if !r.is_empty() {
+        rules.push(r);
+    }
     Ok(rules)
 }
 
